@@ -37,6 +37,37 @@ inductive PermVs (S : Schema) : MD → List V → List V → Prop
   | trans {md : MD} {a b c : List V} : PermVs S md a b → PermVs S md b c → PermVs S md a c
 end
 
+theorem PermVs.refl (S : Schema) (md : MD) : ∀ (vs : List V), PermVs S md vs vs
+  | [] => .nil _
+  | _ :: vs => .cons (.refl _ _) (PermVs.refl S md vs)
+
+/-- related fields are unset together -/
+theorem SameF.unset_iff {S : Schema} {fd : FD} {f g : F} (h : SameF S fd f g) : f = .unset ↔ g = .unset := by
+  cases h with
+  | refl => exact Iff.rfl
+  | one _ _ => simp
+  | list _ _ => simp
+  | map _ _ _ => simp
+
+/-- related entries hold a nil pointer together: both are written or both are passed over -/
+theorem SameV.nilEntry_eq {S : Schema} {md emd : MD} {v w : V} (h : SameV S md v w) : nilEntry emd v = nilEntry emd w := by
+  cases h with
+  | refl => rfl
+  | msg u hfs =>
+    simp only [nilEntry]
+    congr 1
+    cases hfs with
+    | refl => rfl
+    | cons hf hfs' =>
+      cases hfs' with
+      | refl => rename_i fs'; cases fs' with
+        | nil => rfl
+        | cons f2 _ => cases f2 <;> rfl
+      | cons hf2 hfs2 =>
+        rename_i fd2 md2 f2 g2 fs2 gs2
+        have hu := hf2.unset_iff
+        cases f2 <;> cases g2 <;> simp_all [valUnset]
+
 mutual
 theorem canon_sameFs (S : Schema) : ∀ {md : MD} {fs gs : List F}, SameFs S md fs gs →
     SameFs S md (canonFs S md fs) (canonFs S md gs)
@@ -45,26 +76,37 @@ theorem canon_sameFs (S : Schema) : ∀ {md : MD} {fs gs : List F}, SameFs S md 
 theorem canon_sameF (S : Schema) : ∀ {fd : FD} {f g : F}, SameF S fd f g → SameF S fd (canonF S fd f) (canonF S fd g)
   | _, _, _, .refl _ _ => .refl _ _
   | _, _, _, .one hty hv => by simp only [canonF, hty]; exact .one hty (canon_sameV S hv)
-  | _, _, _, .list hty hvs => by simp only [canonF, hty]; exact .list hty (canon_sameVs S hvs)
-  | _, _, _, .map hty hm hp => by simp only [canonF, hty]; exact .map hty hm (canon_permVs S hp)
+  | _, _, _, .list hty hvs => by simp only [canonF, hty]; exact .list hty (canon_sameVs S _ hvs)
+  | _, _, _, .map hty hm hp => by simp only [canonF, hty]; exact .map hty hm (canon_permVs S _ hp)
 theorem canon_sameV (S : Schema) : ∀ {md : MD} {v w : V}, SameV S md v w → SameV S md (canonV S md v) (canonV S md w)
   | _, _, _, .refl _ _ => .refl _ _
   | _, _, _, .msg _ h => by simp only [canonV]; exact .msg [] (canon_sameFs S h)
-theorem canon_sameVs (S : Schema) : ∀ {md : MD} {vs ws : List V}, SameVs S md vs ws →
-    SameVs S md (canonVs S md vs) (canonVs S md ws)
+theorem canon_sameVs (S : Schema) (sk : Bool) : ∀ {md : MD} {vs ws : List V}, SameVs S md vs ws →
+    SameVs S md (canonVs S md sk vs) (canonVs S md sk ws)
   | _, _, _, .nil _ => by simp only [canonVs]; exact .nil _
-  | _, _, _, .cons hv hvs => by simp only [canonVs]; exact .cons (canon_sameV S hv) (canon_sameVs S hvs)
-theorem canon_permVs (S : Schema) : ∀ {md : MD} {vs ws : List V}, PermVs S md vs ws →
-    PermVs S md (canonVs S md vs) (canonVs S md ws)
+  | md, _, _, .cons (v := v) (w := w) hv hvs => by
+    have hn : nilEntry md v = nilEntry md w := hv.nilEntry_eq
+    cases hw : (sk && nilEntry md w)
+    · simp only [canonVs, hn, hw, Bool.false_eq_true, ↓reduceIte]
+      exact .cons (canon_sameV S hv) (canon_sameVs S sk hvs)
+    · simp only [canonVs, hn, hw, ↓reduceIte]
+      exact canon_sameVs S sk hvs
+theorem canon_permVs (S : Schema) (sk : Bool) : ∀ {md : MD} {vs ws : List V}, PermVs S md vs ws →
+    PermVs S md (canonVs S md sk vs) (canonVs S md sk ws)
   | _, _, _, .nil _ => by simp only [canonVs]; exact .nil _
-  | _, _, _, .cons hv hvs => by simp only [canonVs]; exact .cons (canon_sameV S hv) (canon_permVs S hvs)
-  | _, _, _, .swap _ a b l => by simp only [canonVs]; exact .swap _ _ _ _
-  | _, _, _, .trans h1 h2 => .trans (canon_permVs S h1) (canon_permVs S h2)
+  | md, _, _, .cons (v := v) (w := w) hv hvs => by
+    have hn : nilEntry md v = nilEntry md w := hv.nilEntry_eq
+    cases hw : (sk && nilEntry md w)
+    · simp only [canonVs, hn, hw, Bool.false_eq_true, ↓reduceIte]
+      exact .cons (canon_sameV S hv) (canon_permVs S sk hvs)
+    · simp only [canonVs, hn, hw, ↓reduceIte]
+      exact canon_permVs S sk hvs
+  | md, _, _, .swap _ a b l => by
+    cases ha : (sk && nilEntry md a) <;> cases hb : (sk && nilEntry md b) <;>
+      simp only [canonVs, ha, hb, Bool.false_eq_true, ↓reduceIte] <;>
+      first | exact .swap _ _ _ _ | exact PermVs.refl S _ _
+  | _, _, _, .trans h1 h2 => .trans (canon_permVs S sk h1) (canon_permVs S sk h2)
 end
-
-theorem PermVs.refl (S : Schema) (md : MD) : ∀ (vs : List V), PermVs S md vs vs
-  | [] => .nil _
-  | _ :: vs => .cons (.refl _ _) (PermVs.refl S md vs)
 
 /-- a plain permutation of the entries is an instance -/
 theorem PermVs.of_perm (S : Schema) (md : MD) {vs ws : List V} (h : vs.Perm ws) : PermVs S md vs ws := by
